@@ -46,6 +46,8 @@ def generate(prop, seed, tier='quick', sub='crash'):
     vopts = gen.make_opts(rng, len(pool))
     victim = gen.gen_op(rng, kind, len(pool), vopts)
     victim.pop('from_key', None)
+    if victim.pop('last_indexed', None):
+        victim['keys'] = [rng.randrange(64)]  # expectations() resolves the targets of a delete victim from 'keys'
     if victim.get('via') == 'offset':
         victim['via'] = 'stream' if kind == 'add_loose' else 'bytesio'  # expectations() predicts the keys from the pool contents
     if kind == 'add_pack':
@@ -65,6 +67,20 @@ def generate(prop, seed, tier='quick', sub='crash'):
         victim.setdefault('c', rng.randrange(len(pool)))
     if kind == 'loosen':
         victim['absent'] = False
+    if kind == 'import':
+        # several objects per call and a source that holds several: flushes of the memory cache in the middle of the call
+        victim['keys'] = [rng.randrange(64) for _ in range(rng.choice([2, 3, 4, 6]))]
+        # ... of which several are new to the destination (contents that only the source holds), stored there in any form
+        first = len(pool)
+        for _ in range(rng.randint(2, 6)):
+            pool.append([rng.choice(['rand', 'text', 'mixed']), rng.choice([20, 60, 200, 600, rng.randint(1, 900)]), rng.randrange(1 << 30)])
+        new_idx = list(range(first, len(pool)))
+        rng.shuffle(new_idx)
+        cut = rng.randint(0, len(new_idx))
+        if new_idx[:cut]:
+            pre_ops.insert(0, {'op': 'add_pack', 'cs': new_idx[:cut], 'api': 'objects', 'via': 'bytesio', 'compress': rng.random() < 0.5, 'no_holes': False, 'read_twice': True, 'do_fsync': True, 'callback': False, 'seed': 0, 't': 'b'})
+        for cidx in new_idx[cut:]:
+            pre_ops.insert(0, {'op': 'add_loose', 'c': cidx, 'via': 'bytes', 'seed': 0, 't': 'b'})
     if kind == 'import' and not any(op.get('t') == 'b' for op in pre_ops):
         pre_ops = [dict(gen.gen_op(rng, 'add_pack', len(pool), opts), t='b'), dict(gen.gen_op(rng, 'add_loose', len(pool), opts), t='b')] + pre_ops
     if sub == 'powerloss':
@@ -74,7 +90,7 @@ def generate(prop, seed, tier='quick', sub='crash'):
         config['pack_size_target'] = rng.choice([1, 50, 500])
     thorough = tier == 'thorough'
     followups = None
-    if sub == 'restart':
+    if sub in ('restart', 'faultcont'):
         # C13 is about repack-free histories: no repack before, in, or after the interrupted operation
         pre_ops = [op for op in pre_ops if op['op'] not in ('repack', 'repack_pack')]
         if kind in ('repack', 'repack_pack', 'loosen', 'delete'):
@@ -94,7 +110,7 @@ def generate(prop, seed, tier='quick', sub='crash'):
         # a batch that crosses the library's 1000-row paging / flushing granularity in one call
         victim['mass'] = 1000 + rng.randint(0, 60)
     pending = None
-    if sub != 'fault' and not victim.get('mass') and rng.random() < 0.15:
+    if sub not in ('fault', 'faultcont') and not victim.get('mass') and rng.random() < 0.15:
         # the victim's handle holds index rows written with do_commit=False (still uncommitted); prefer contents that
         # are already stored (loose) - they must survive whatever the victim and the crash do
         loose_cs = [op['c'] for op in pre_ops if op['op'] == 'add_loose' and 'c' in op and op.get('t', 'c') == 'c']
@@ -116,12 +132,12 @@ def generate(prop, seed, tier='quick', sub='crash'):
         'ops': pre_ops,
         'victim': victim,
         'positions': 'all' if thorough else 'sample',
-        'nsample': 16 if sub != 'fault' else 24,
+        'nsample': {'fault': 24, 'faultcont': 8}.get(sub, 16),
         'fresh_handle': rng.random() < 0.4,
         # C06 variant: the n-th fsync of the victim fails
         'fsync_fault': rng.randint(1, 4) if sub == 'powerloss' and rng.random() < 0.25 else None,
         # the victim's handle holds index rows written with do_commit=False (still uncommitted)
-        'pending_add': pending if sub != 'restart' else None,
+        'pending_add': pending if sub not in ('restart', 'faultcont') else None,
         'followups': followups,
     }
 
@@ -428,7 +444,7 @@ def execute(case):  # pylint: disable=too-many-locals,too-many-branches,too-many
                     victim['concrete_key'] = world.model_key(side, victim.get('key', 0))
                 case = dict(case, victim=victim)
                 pre, maybe = expectations(world, side, victim)
-                if (case.get('fresh_handle') and not case.get('pending_add')) or sub == 'fault':
+                if (case.get('fresh_handle') and not case.get('pending_add')) or sub in ('fault', 'faultcont'):
                     world.op_reopen(side, {})
                 if case.get('pending_add') and sub != 'fault':
                     # the handle that runs the victim has objects written with the documented do_commit=False option:
@@ -445,6 +461,8 @@ def execute(case):  # pylint: disable=too-many-locals,too-many-branches,too-many
                     evals, behaviours = run_recorded(lib, world, side, case, pre, maybe, rng, probes, faults)
                 elif sub == 'restart':
                     evals, behaviours = run_restart(lib, world, side, case, pre, maybe, rng, probes, faults)
+                elif sub == 'faultcont':
+                    evals, behaviours = run_faultcont(lib, world, side, case, pre, maybe, rng, probes, faults)
                 else:
                     evals, behaviours = run_faulted(lib, world, side, case, pre, maybe, rng, probes, faults)
             except Violation as exc:
@@ -855,6 +873,137 @@ def run_restart(lib, world, side, case, pre, maybe, rng, probes, faults):  # pyl
         faults['crash'] = faults.get('crash', 0) + 1
         behaviours.add(f"restart|{victim['op']}|{kind.split(':')[0] if kind.startswith('open') else kind}|{bool(stale)}|{case['seed']}")
         shutil.rmtree(path, ignore_errors=True)
+    return evals, behaviours
+
+
+def run_faultcont(lib, world, side, case, pre, maybe, rng, probes, faults):  # pylint: disable=too-many-locals,too-many-statements,too-many-branches
+    """C13 across an I/O error: one seam call of a repack-free victim fails, the caller catches the exception and goes on
+    using the *same* handle for ordinary repack-free operations (the handle's cached pack id, pack sizes and session
+    survive the failure). The pack layout rules must keep holding in that continued history. Operations of the
+    continuation may themselves fail loudly (then the continuation stops); what is checked is only what is on disk:
+    before/after every step - also a failed one - referenced bytes unchanged, ids consecutive, only the highest pack
+    below the target, full packs never written again."""
+    from .oracles import Oracle, check_packs_monotone, pack_bytes  # pylint: disable=import-outside-toplevel
+
+    del lib
+    victim = case['victim']
+    model_pre = dict(side.model)
+    world.close_all()
+    snap = os.path.join(world.root, 'pre')
+    shutil.copytree(side.folder, snap)
+    bside = world.sides.get('b')
+
+    def fresh_world(tag):
+        folder = os.path.join(world.root, tag, 'c')
+        os.makedirs(os.path.dirname(folder))
+        shutil.copytree(snap, folder)
+        wld = World(world.root, case, None)
+        wld.adopt_side('c', folder, case['config'], model_pre)
+        if bside is not None:
+            wld.adopt_side('b', bside.folder, case['config_b'], bside.model)
+        wld.step_index = len(case['ops'])
+        SIM.fs_rng = random.Random(case['seed'] + 4242)
+        SIM.uuid_counter = 1_000_000
+        return wld
+
+    counter = Counter()
+    wld = fresh_world('f0')
+    SIM.hooks.append(counter)
+    try:
+        wld.step(victim)
+    finally:
+        SIM.hooks.remove(counter)
+    wld.close_all()
+    shutil.rmtree(os.path.join(world.root, 'f0'), ignore_errors=True)
+    candidates = []
+    for idx, (kind, rel, mut) in enumerate(counter.events):
+        for fault in fault_kinds_for(kind, mut):
+            if fault != 'close-lost':  # (data that vanishes after a successful close is storage loss, not an error return)
+                candidates.append((idx, fault, kind))
+    probes['boundaries'] += len(candidates)
+    pinned = case.get('positions')
+    if isinstance(pinned, list):
+        chosen = [c for c in candidates if [c[0], c[1]] in pinned]
+    else:
+        by_pair = {}
+        for cand in candidates:
+            kshort = cand[2].split(':')[0] if cand[2].startswith('open') else cand[2]
+            by_pair.setdefault((kshort, cand[1]), []).append(cand)
+        pairs = sorted(by_pair)
+        rng.shuffle(pairs)
+        chosen = sorted(rng.choice(by_pair[pair]) for pair in pairs[: case.get('nsample', 8)])
+    behaviours = set()
+    evals = 0
+
+    # Calls that carry pack data: if one of them fails, bytes the library believes written (it does its size arithmetic on
+    # tell()) are not in the file, so "which pack is full" may legitimately be off from then on - C13 is stated for
+    # histories, not for storage that loses writes. After such a fault only the append-only clauses are checked (what
+    # is referenced never changes, nothing shrinks below a referenced byte); after a failing sync / metadata / SQL / open
+    # call everything the library wrote is where it thinks it is, and the fill-order clauses are checked as well.
+    data_calls = ('f.write', 'f.flush', 'f.close', 'f.truncate')
+
+    def layout_step(wld, fside, op, label, fill_rules=True):
+        """One operation on the same handle; the layout oracle runs whether it returns or raises."""
+        with SIM.quiet():
+            before = (rawread.read_state(fside.folder), pack_bytes(fside.folder))
+        raised = None
+        try:
+            wld.step(op)
+        except Violation as exc:
+            raise Violation('faultcont:' + exc.klass, f'{label}: {exc.detail}') from None
+        except HarnessError:
+            raise
+        except Exception as exc:  # pylint: disable=broad-except
+            if classify_exception(exc) != 'library':
+                raise
+            raised = exc
+        with SIM.quiet():
+            after_state, after_bytes = rawread.read_state(fside.folder), pack_bytes(fside.folder)
+            try:
+                check_packs_monotone(wld, fside, before, after_state, after_bytes, fill_rules=fill_rules)
+            except Violation as exc:
+                how = f'raised {type(raised).__name__}' if raised is not None else 'returned'
+                raise Violation('faultcont:' + exc.klass, f'{label} ({op["op"]} {how}): {exc.detail}') from None
+        return raised
+
+    for num, (idx, fault, kind) in enumerate(chosen):
+        tag = f'f{num + 1}'
+        wld = fresh_world(tag)
+        fside = wld.sides['c']
+        injector = Injector(idx, fault)
+        SIM.hooks.append(injector)
+        label = f'{fault}@{idx} at {kind} (victim {victim["op"]}), same handle continues'
+        fill_rules = kind not in data_calls
+        try:
+            raised = layout_step(wld, fside, victim, label, fill_rules)
+        finally:
+            SIM.hooks.remove(injector)
+        if injector.fired is None:
+            raise HarnessError(f'{label}: fault position not reached ({injector.count} calls)')
+        evals += 1
+        faults[fault] = faults.get(fault, 0) + 1
+        probes['victim_raised' if raised is not None else 'victim_completed'] += 1
+        # the model is only needed to resolve symbolic arguments of the follow-up operations: what is there now
+        with SIM.quiet():
+            _, observed = rawread.verify(fside.folder, model=None)
+        now_model = dict(pre)
+        for key, data in maybe.items():
+            if key in observed:
+                now_model[key] = data
+        fside.model = now_model
+        done = 0
+        for fnum, op in enumerate(case['followups']):
+            wld.step_index = len(case['ops']) + 1 + fnum
+            again = layout_step(wld, fside, op, label + f', then {[o["op"] for o in case["followups"][: fnum + 1]]}', fill_rules)
+            if again is not None:
+                probes['continuation_refused'] = probes.get('continuation_refused', 0) + 1
+                break
+            done += 1
+        probes['continuation_steps'] = probes.get('continuation_steps', 0) + done
+        kshort = kind.split(':')[0] if kind.startswith('open') else kind
+        behaviours.add(f"faultcont|{victim['op']}|{kshort}|{fault}|{type(raised).__name__ if raised else 'completed'}|{done}|{case['seed']}")
+        wld.close_all()
+        shutil.rmtree(os.path.join(world.root, tag), ignore_errors=True)
     return evals, behaviours
 
 
